@@ -19,6 +19,7 @@ CLAIMED = {
                 'tests every attacker kind; promotion emission splits exactly on the last rank; (4) the legality filter skips make-move only '
                 'under guards that make the shortcut sound (not king, not en passant, off every king ray / not a checking knight; king lifted '
                 'from the occupancy); (5) in givesCheck every unbounded ray scan runs in a non-zero direction towards the enemy king, '
+                '(6) every Square(file, rank) built by the table initialiser has both coordinates inside 0..7 and the shift formulas of the king / knight / pawn attack tables are exactly those attack sets for all 64 squares. '
                 'direction classes pair with slider kinds, and the en-passant rank scan starts outside the pawn pair. Right level: these '
                 'are exactly the places where a generator can be wrong for one geometry only - the rule checks every square and every '
                 'board-atom assignment at once, which no sample of positions does.',
@@ -48,6 +49,7 @@ CLAIMED = {
                 'restricted to the searchmoves of this go; (3) a move read from a transposition-table entry (10 sites) is untrusted and, '
                 'by a path- and flag-sensitive typestate, reaches makeMove / isLegal / givesCheck / SEE / move printing / a PV / the '
                 'ponder-move result only after it was found in a generated move list; (5) the tablebase PV extension truncates the PV at '
+                '(6) the MultiPV count that indexes / offsets the root list or is handed on with it is, at every use, min(.., rootMoves.size()) and the list is not resized after the clamp. '
                 'the number of moves it replayed. Right level: legality of the answer in every configuration follows from where the '
                 'answer can come from - a provenance/typestate fact that holds for all positions, limits and options at once.',
         'design_ref': 'DESIGN.md section 2, C03',
@@ -61,7 +63,7 @@ CLAIMED = {
                 'rule50Margin (2n-1 plies for the winner, 2n for the loser), TBProbe::extendPV, the UCI mate conversion in notifyPV, the '
                 'TT ply shift (store at p1, read at p2), the win/loss classification and the 16-bit range. This is a genuine necessary '
                 'condition of "mate N means mate in N": any disagreement between an encoder and a decoder shifts every announced '
-                'distance. Right level for this clause: a finite arithmetic agreement; that a reported mate exists at all is game-tree '
+                'distance. Second clause (K3 typestate): a score found by searching after a null move never leaves negaScout (return, hash store, search-tree info) unless it was shown not to be a win score or replaced by a non-win bound. Right level for the first clause: a finite arithmetic agreement; that a reported mate exists at all is game-tree '
                 'semantics and is not claimed.',
         'design_ref': 'DESIGN.md section 2, C04',
         'note': TB + ' Decides only the encoding agreement, not the existence of the announced mates nor the soundness of pruning near mate scores.',
@@ -90,6 +92,7 @@ CLAIMED = {
                 'stop installs the zero limit before waiting, ponderhit installs limits before releasing, nothing modifies limits after '
                 'the hand-over; (3) polling structure: the stop test dominates every recursive descent, every made node decrements the '
                 'poll counter, poll interval <= 1000 nodes, shouldStop compares elapsed time with the limit selected by searchNeedMoreTime. '
+                'Also: the limit shouldStop compares the elapsed time with is on every path bounded by the hard limit (hard, soft, or min(.., hard)). '
                 'Right level: the inequality chain is an arithmetic fact over a stated finite domain (exactly what interval analysis '
                 'decides); the latency clause is timing and is not claimed.',
         'design_ref': 'DESIGN.md section 2, C06',
@@ -104,6 +107,7 @@ CLAIMED = {
                 '(3) cache-key completeness of evalPos: the contempt - the one non-position input - is mixed into the key exactly when it can '
                 'change the score; half-move clocks sharing a key share an evaluation bucket; material-hash key arithmetic unsigned; (4) the '
                 'endgame material cases are closed under colour mirror and every mirrored helper-call pair is a sigma-image (colour-swapped, '
+                '(5) group structure of the first-layer accumulator: in every build variant addSubWeights only loads, stores and applies wrapping 16-bit add / subtract in matching numbers (no clamp, no saturating intrinsic), and the full refresh uses the same routine. '
                 'squares rotated, side inverted, score negated). Right level: purity and colour symmetry fail through a missed notification, '
                 'an incomplete key or an asymmetric case - all visible in the code for every history and position; numerical equality of '
                 'network outputs is value-level and not claimed.',
@@ -134,6 +138,7 @@ CLAIMED = {
                 'and receiver-class sensitive, premises checked), publication rows by dominance (start parameters before `search = true` under '
                 'the mutex, stopThread before protocol state, workers initialised before use, table geometry/generation only before hand-over, '
                 'contempt hash by thread 0 only) - plus completeness (a new field without a row fails) and a frozen set of static-storage '
+                'The options hand-over is decided by the completion-flag typestate (optionsSetFinished set only under the mutex with the pending queue and every swapped-out batch known empty). '
                 'variables written after start-up. Right level: race freedom quantifies over all interleavings; a discipline check is '
                 'interleaving-independent and covers code paths a TSan run never executes. It decides the discipline, not the memory-model '
                 'theorem: rows justified by message-protocol ordering are listed as assumptions.',
@@ -149,7 +154,7 @@ CLAIMED = {
                 'path; stop/quit arm their acknowledge counters first; (3) both stale-command purges erase the same types; (4) helper results '
                 'are accepted/sent only for the current job id, once; (5) hand-shake loop shapes: worker wait->poll->ack, engine stop->own '
                 'ack->poll until acknowledged, quit->poll until acknowledged, flag-sensitive "a search that ran is stopped"; (6) a wake-up '
-                'consumed by the engine thread\'s inner wait loop is re-armed or pending options are handled before it sleeps again. Right '
+                'consumed by the engine thread\'s inner wait loop is re-armed or pending options are handled before it sleeps again; (7) the completion-flag typestate of optionsSetFinished (shared with C09.4). Right '
                 'level: these are the necessary structural conditions of "no lost wake-up / no stale result" for every interleaving; the '
                 'composed liveness property itself is model-checking territory and is not claimed.',
         'design_ref': 'DESIGN.md section 2, C10',
@@ -163,6 +168,7 @@ CLAIMED = {
                 'search, a claimable repetition returns exactly 0, and in the 50-move branch `return 0` is unreachable when the side to '
                 'move is in check without a legal move; (3) the game history handed to the search is built hash-before-move and is '
                 'dropped only on reversible-move information; the first-new index is the history size; (4) every GameState has an arm '
+                '(5) the en-passant mask tables are built from squares whose file stays on the board and makeMove records an en-passant square only under the mask test. '
                 'in the state and PGN-result switches. Right level: "for every game history" - the stack discipline and test ordering '
                 'are history-independent necessary conditions; the index arithmetic of the repetition scan is value-level and not claimed.',
         'design_ref': 'DESIGN.md section 2, C11',
@@ -214,6 +220,7 @@ CLAIMED = {
                 '(3) every engine-side writer of the half-move clock passes a value known to be >= 0 and the readers index the key table '
                 'inside its extent (the negative-clock FEN defect was found by this rule); (4) the parser entry points can only raise '
                 'ChessError-family exceptions and the UCI handler lets nothing escape; (5) pawn-direction square offsets are colour-decided '
+                '(6) PGN scanner look-ahead typestate: every character read is appended, matched as a delimiter, skipped as white space or handed back before the next read / the return. '
                 'and mirrored. Right level: "never a crash or memory error for arbitrary bytes" needs the bounds and exception obligations '
                 'for every input; agreement of tables is the structural core of every round trip.',
         'design_ref': 'DESIGN.md section 2, C17',
